@@ -35,6 +35,22 @@ def build_conv(chk=None):
         fails.append(("translator", "x_pkg", (p2.stdout + p2.stderr)[-1500:]))
     if fails:
         return False, fails
+    # the tables must not depend on what other converters went through the package's hooks before (lib/conv_cfg.py, 'after-foreign'):
+    # the same translator, run after such a history, has to produce the same text
+    if os.environ.get("VERIF_NO_FOREIGN") != "1":
+        alt_v, alt_j = pkg_v[:-2] + "_hist.v.txt", os.path.join(V.GEN, "pkg_hist.json")
+        p3 = V.run_py("x_pkg.py", [alt_v, alt_j], extra_env={"VERIF_CONV_CFG": "after-foreign"})
+        same = p3.returncode == 0 and open(alt_v).read() == open(pkg_v).read()
+        if chk:
+            chk.obligation("translate:x_pkg-independent-of-converter-history", same, "" if same else (p3.stdout + p3.stderr)[-200:])
+        if not same:
+            rows = []
+            if p3.returncode == 0:
+                a, b = open(pkg_v).read().split("\n"), open(alt_v).read().split("\n")
+                rows = [{"fresh_process": x[:400], "after_customised_user_converter": y[:400]} for x, y in zip(a, b) if x != y][:6]
+            fails.append(("history-dependence", "x_pkg tables differ after a customised user converter was used (VERIF_CONV_CFG=after-foreign)",
+                          json.dumps({"history": "after-foreign (lib/conv_cfg.py)", "differing_rows": rows, "translator": (p3.stdout + p3.stderr)[-300:] if p3.returncode else ""})))
+            return False, fails
     ok, res = V.compile_chain([mm_v, pkg_v])
     if not ok:
         fails.append(("coqc", os.path.basename(res[-1][0]), res[-1][1].text[-1500:]))
@@ -43,10 +59,62 @@ def build_conv(chk=None):
 
 def real_run(cases, str_of=(), cfg=None):
     req = {"cases": [{"target": c["target"], "input": c["input"]} for c in cases], "str_of": list(str_of)}
+    cfg = cfg or os.environ.get("VERIF_REPLAY_CONV_CFG")       # set by the driver when a replay file records a converter history
     p = V.run_py("r_conv.py", input_=json.dumps(req), timeout=3600, extra_env={"VERIF_CONV_CFG": cfg} if cfg else None)
     if p.returncode != 0:
         raise RuntimeError("r_conv failed: " + p.stderr[-3000:])
     return json.loads(p.stdout)
+
+
+HISTORY_DEVIANTS = []      # (target, input) of the results of this process that were observed under the 'after-foreign' history
+
+
+def _rkey(r):
+    return (r.get("ok"), json.dumps(r.get("dump"), sort_keys=True), json.dumps(r.get("unstr"), sort_keys=True), r.get("unstr_ok"), r.get("out") if "out" in r else None)
+
+
+HISTORY_CFGS = ("after-foreign", "user-omit", "nodetail")
+
+
+def merge_foreign_history(cases, results, rerun, key=_rkey):
+    """Further runs of the same inputs on converters with another past or configuration (lib/conv_cfg.py):
+      after-foreign  a default get_converter() created AFTER a customised user converter (and the application's own same-named attrs
+                     classes) went through the package's hooks in the same process;
+      user-omit      get_converter(cattrs.Converter(omit_if_default=True));   nodetail   ...(detailed_validation=False).
+    A converter must not depend on which converters were created or used before it, nor on these options of the converter it is built on
+    (C19), so all runs agree on the unchanged tree (ok/raise, object graph, re-serialisation; exception TYPES are not compared).  Where
+    one differs, the deviating result REPLACES the first one, marked, and each property's own oracle judges it (the model/real
+    correspondence flags it as well).  [rerun(cfg)] performs one such run.  VERIF_NO_FOREIGN=1 switches the extra runs off."""
+    if os.environ.get("VERIF_NO_FOREIGN") == "1" or os.environ.get("VERIF_CONV_CFG") or os.environ.get("VERIF_REPLAY_CONV_CFG"):
+        return 0
+    import concurrent.futures as _cf
+
+    def one(cfg):
+        try:
+            return cfg, rerun(cfg), None
+        except Exception as e:
+            return cfg, None, str(e)[-300:]
+    with _cf.ThreadPoolExecutor(len(HISTORY_CFGS)) as ex:
+        runs = list(ex.map(one, HISTORY_CFGS))
+    n = 0
+    for cfg, second, err in runs:
+        if second is None:          # the run itself failing is a finding of its own
+            HISTORY_DEVIANTS.append((cfg, "<whole run>", "the run failed: %s" % err))
+            continue
+        for i, (a, b) in enumerate(zip(results, second)):
+            if not a.get("converter_history") and key(a) != key(b):
+                results[i] = dict(b, converter_history=cfg)
+                n += 1
+                if len(HISTORY_DEVIANTS) < 8:
+                    HISTORY_DEVIANTS.append((cfg, cases[i].get("target"), cases[i].get("input")))
+    return n
+
+
+def real_results(cases):
+    """real converter only (model unavailable), with the foreign-converter history merged in like run_cases does"""
+    res = real_run(cases)["results"]
+    merge_foreign_history(cases, res, lambda cfg: real_run(cases, cfg=cfg)["results"])
+    return res
 
 
 def _unfl(j):
@@ -129,6 +197,7 @@ def run_cases(cases, tag, shard=250, workers=8, model=True):
         if c.get("kind") == "hook-fuzz":
             nodes(c["input"])
     real = real_run(cases, str_of)
+    merge_foreign_history(cases, real["results"], lambda cfg: real_run(cases, str_of, cfg=cfg)["results"])
     if not model:
         return [0] * len(cases), real["results"]
     pkg = json.load(open(os.path.join(V.GEN, "pkg.json")))
